@@ -43,6 +43,10 @@ def cases(tier, seed):
             yield "mg.unordered", {"table": table, "mode": "symm", "chunks": chunks, "cols": ["count"], "aggs": ["sum"],
                                    "buf": [1, 2, 10 ** 6][(n + mm) % 3], "max_merge": mm, "form": "frame",
                                    "scale": 4 if (n + mm) % 4 == 1 else 1}
+    # (1b) no chunk at all (an empty iterator)
+    for mode in ("symm", "square"):
+        yield "mg.unordered", {"table": T["fixed_short"], "mode": mode, "chunks": [], "cols": ["count"], "aggs": ["sum"],
+                               "buf": 10, "max_merge": 200, "form": "frame"}
     # (2) record bags x partitions x orders x buffers x storage modes
     nb = 260 if tier == "quick" else 4000
     for h in range(nb):
